@@ -152,6 +152,8 @@ def _consteval(node, env):
             return a - b
         if isinstance(node.op, ast.Mult):
             return a * b
+        if isinstance(node.op, ast.Pow) and isinstance(a, int) and isinstance(b, int) and 0 <= b <= 64:
+            return a ** b
         raise _NotConst
     if isinstance(node, ast.Tuple):
         return tuple(_consteval(e, env) for e in node.elts)
